@@ -987,6 +987,93 @@ Section EncoderProofs.
       + intros F. unfold Encoder.run_body_es in H.
         destruct (es_first_true c _ (body_init r) src pre o rest eq_refl H F) as [Rr X]. auto.
   Qed.
+
+  (* ---------------- the explicit Fuse: the source is never polled after its end ---------------- *)
+  Notation enc_loop_s := (enc_loop_s msg enc ser compress).
+  Notation enc_poll_src := (enc_poll_src msg enc ser compress).
+  Notation body_poll_src := (body_poll_src msg enc ser compress).
+  Notation body_trace_src := (body_trace_src msg enc ser compress).
+  Notation run_body_src := (run_body_src msg enc ser compress).
+
+  (* the event list the plain model works on is the explicit source seen through its Fuse: either
+     the stream is still there, untouched since it was created, or it has ended and been dropped;
+     in both cases it has never been polled after its end *)
+  Definition src_rel (l : list sevent) (s : source msg) : Prop :=
+    s = mkSource l false 0 false \/ (l = [] /\ s = mkSource [] true 0 true).
+
+  Lemma src_rel_after l s : src_rel l s -> s_after_end s = 0.
+  Proof. intros [->|[_ ->]]; reflexivity. Qed.
+
+  Lemma enc_loop_s_sim (c : cfg) : forall evs buf,
+    exists s', enc_loop_s c buf evs false 0 false =
+               (fst (fst (enc_loop c buf evs)), snd (fst (enc_loop c buf evs)), s') /\
+               src_rel (snd (enc_loop c buf evs)) s'.
+  Proof.
+    induction evs as [|ev evs IH]; intros buf.
+    - cbn [Encoder.enc_loop_s Encoder.enc_loop]. unfold flush_or.
+      destruct (is_empty buf); eexists; (split; [reflexivity|]); right; auto.
+    - destruct ev as [|[m|st]]; cbn [Encoder.enc_loop_s Encoder.enc_loop]; unfold flush_or.
+      + destruct (is_empty buf); eexists; (split; [reflexivity|]); left; reflexivity.
+      + destruct (encode_item c buf m) as [buf'|buf' st|].
+        * destruct (yield_threshold c <=? nlen buf'); [|apply IH].
+          eexists; (split; [reflexivity|]); left; reflexivity.
+        * destruct (is_empty (ntake (nlen buf) buf')); eexists; (split; [reflexivity|]); left; reflexivity.
+        * eexists; (split; [reflexivity|]); left; reflexivity.
+      + destruct (is_empty buf); eexists; (split; [reflexivity|]); left; reflexivity.
+  Qed.
+
+  Lemma enc_loop_s_done (c : cfg) buf :
+    enc_loop_s c buf [] true 0 true =
+    (fst (fst (enc_loop c buf [])), snd (fst (enc_loop c buf [])), mkSource [] true 0 true).
+  Proof. cbn [Encoder.enc_loop_s Encoder.enc_loop]. unfold flush_or. destruct (is_empty buf); reflexivity. Qed.
+
+  Lemma enc_poll_src_sim (c : cfg) st l s : src_rel l s ->
+    exists s', enc_poll_src c st s =
+               (fst (fst (enc_poll c st l)), snd (fst (enc_poll c st l)), s') /\
+               src_rel (snd (enc_poll c st l)) s'.
+  Proof.
+    intros R. unfold Encoder.enc_poll_src, Encoder.enc_poll.
+    destruct (e_error st); [eauto|]. destruct (e_term st); [eauto|].
+    destruct R as [->|[-> ->]]; cbn [s_evs s_ended s_after_end s_fuse_done].
+    - apply enc_loop_s_sim.
+    - rewrite enc_loop_s_done. eexists. split; [reflexivity|]. right. split; [|reflexivity].
+      cbn [Encoder.enc_loop]. destruct (is_empty (e_buf st)); reflexivity.
+  Qed.
+
+  Lemma body_poll_src_sim (c : cfg) b l s : src_rel l s ->
+    exists s', body_poll_src c b s =
+               (fst (fst (body_poll c b l)), snd (fst (body_poll c b l)), s') /\
+               src_rel (snd (body_poll c b l)) s'.
+  Proof.
+    intros R. unfold Encoder.body_poll_src, Encoder.body_poll.
+    destruct (b_end b); [eauto|].
+    destruct (enc_poll_src_sim c (b_inner b) l s R) as (s' & E & R').
+    rewrite E. destruct (enc_poll c (b_inner b) l) as [[o inner] l']. cbn [fst snd] in *.
+    destruct o; try destruct (b_role b); eauto.
+  Qed.
+
+  Lemma body_trace_src_sim (c : cfg) n : forall b l s, src_rel l s ->
+    exists s', body_trace_src c n b s = (body_trace_es c n b l, s') /\ exists l', src_rel l' s'.
+  Proof.
+    induction n as [|n IH]; intros b l s R; [cbn; eauto|].
+    cbn [Encoder.body_trace_src Encoder.body_trace_es].
+    destruct (body_poll_src_sim c b l s R) as (s1 & E & R1). rewrite E.
+    destruct (body_poll c b l) as [[o b'] l1]. cbn [fst snd] in *.
+    destruct (IH b' l1 s1 R1) as (s2 & E2 & R2). rewrite E2. eauto.
+  Qed.
+
+  (* the run over the explicit source is the run of the plain model, and the ghost is 0: in no
+     schedule, role, configuration or number of extra polls is the codec's source stream polled
+     again after it has answered None (that is what the Fuse is for) *)
+  Theorem enc_source_never_polled_after_end (c : cfg) r src extra :
+    fst (run_body_src c r src extra) = run_body_es c r src extra /\
+    s_after_end (snd (run_body_src c r src extra)) = 0.
+  Proof.
+    unfold Encoder.run_body_src, Encoder.run_body_es.
+    destruct (body_trace_src_sim c (poll_budget src + extra) (body_init r) src (source_init src))
+      as (s' & E & l' & R); [left; reflexivity|].
+    rewrite E. split; [reflexivity|]. cbn [snd]. eapply src_rel_after; eauto.
+  Qed.
 End EncoderProofs.
 
 Arguments payload_of {msg enc}. Arguments enc_one {msg enc}. Arguments frame_of {enc}.
